@@ -34,7 +34,12 @@ def run_property(prop, tier, program=None, quiet=False):
     if program is None:
         program = Program.from_dir(repo_path())
     ctx = report.Ctx(program, prop, tier)
-    mod.run(ctx)
+    try:
+        mod.run(ctx)
+    except AnalysisError as e:
+        # an anchor vanished half way: what was decided before stays decided (violations are still reported),
+        # the rest of the property is undecided -> ANALYSIS-ERROR, never a silent pass
+        ctx.unrecognised(prop + ".anchor", "analysis could not continue", "", str(e))
     if tier == "thorough" and hasattr(mod, "thorough"):
         mod.thorough(ctx)
     return ctx, mod
